@@ -3,6 +3,6 @@ CONSTANTS
   MaxPipelines = 3
   DqConfigs = {"a", "b"}
   M_DeadQueueOnCopy = TRUE
-  D_DqConfigOnRegistryEntry = TRUE
+  D_DqConfigOnRegistryEntry = FALSE
 INVARIANTS DeadQueueIffDeclared DeadQueueIsOwnModuloDeviation Export
 CHECK_DEADLOCK FALSE
